@@ -192,6 +192,12 @@ fn gen_random_session(rng: &mut Rng) -> Vec<Op> {
     ops
 }
 
+/// the same random-access session with a record length larger than what FIELD lays out: the
+/// unused tail of the records changes nothing about what is read back
+fn longer_records(src: &str, k: usize) -> String {
+    src.replace(" LEN = 8\n", " LEN = 13\n").replace(&format!("\"P{}R", k), &format!("\"Q{}R", k))
+}
+
 pub fn run(args: &Args) {
     let mut rng = Rng::new(args.seed);
     let mut sum = Summary::new();
@@ -224,6 +230,23 @@ pub fn run(args: &Args) {
             }
         };
         let out = String::from_utf8_lossy(&r.stdout).to_string();
+        if k % 4 == 2 {
+            for n in 1..=3 {
+                let _ = std::fs::remove_file(format!("Q{}R{}", k, n));
+            }
+            let src2 = longer_records(&src, k);
+            evaluations += 1;
+            sum.count("random_sessions_with_longer_records");
+            match run_program(&src2, &RunOpts { budget: 50_000, ..Default::default() }) {
+                Outcome::Ran(r2) => {
+                    let out2 = String::from_utf8_lossy(&r2.stdout).to_string();
+                    if out2 != out || r2.end != r.end {
+                        sum.violation(ImplViolation { key: "record-length-changes-contents".into(), input: src2.replace('\n', " | "), expected: format!("as with LEN = 8: {:?}", out.replace("\r\n", " | ")), observed: format!("{:?} then {:?}", out2.replace("\r\n", " | "), r2.end) });
+                    }
+                }
+                other => sum.violation(ImplViolation { key: "record-length-changes-contents".into(), input: src2.replace('\n', " | "), expected: "accepted".into(), observed: format!("{:?}", other).chars().take(200).collect() }),
+            }
+        }
         // observed results, operation by operation
         let mut observed: Vec<String> = vec![];
         let lines: Vec<&str> = out.split("\r\n").collect();
@@ -339,6 +362,6 @@ pub fn run(args: &Args) {
     sum.write(
         &args.out,
         evaluations,
-        "seeded sequences of 4-18 operations over handles 1-3 and three text-file and three random-file names private to each program: OPEN FOR INPUT / OUTPUT / APPEND / RANDOM (LEN = 8, FIELD), PRINT #, LINE INPUT #, EOF, CLOSE #n, CLOSE, KILL, LSET+PUT, GET; generated mostly valid (a name open at most once), half of them with one protocol-violating operation appended (busy handle, missing file, closed handle, wrong mode, read past the end); every fourth program is a session on one random-access file (5-14 PUTs and GETs whose record numbers often follow one another, close, reopen, all records read back). The program prints a marker after every operation and stops at its first error; lines read, EOF values, records read and the error code are compared with Files.frun in Coq. Non-trivial = distinct operation sequences.",
+        "seeded sequences of 4-18 operations over handles 1-3 and three text-file and three random-file names private to each program: OPEN FOR INPUT / OUTPUT / APPEND / RANDOM (LEN = 8, FIELD), PRINT #, LINE INPUT #, EOF, CLOSE #n, CLOSE, KILL, LSET+PUT, GET; generated mostly valid (a name open at most once), half of them with one protocol-violating operation appended (busy handle, missing file, closed handle, wrong mode, read past the end); every fourth program is a session on one random-access file (5-14 PUTs and GETs whose record numbers often follow one another, close, reopen, all records read back), run a second time with LEN = 13 for the same 8-character FIELD (same results expected). The program prints a marker after every operation and stops at its first error; lines read, EOF values, records read and the error code are compared with Files.frun in Coq. Non-trivial = distinct operation sequences.",
     );
 }
